@@ -1943,6 +1943,10 @@ func (ctx *RenderContext) ToString(val interface{}) string {
 	case []byte:
 		return string(v)
 	case fmt.Stringer:
+		if isNilPointer(v) {
+			// a typed nil pointer whose String method has a value receiver cannot be called
+			return ""
+		}
 		return v.String()
 	}
 
